@@ -1267,23 +1267,15 @@ int safec_vsnprintf_s(out_fct_type out, const char *funcname, char *buffer,
 #ifdef PRINTF_SUPPORT_LONG_DOUBLE
             if (flags & FLAGS_LONG_DOUBLE) {
                 if (*format) {
-                    unsigned off = format - startformat;
-                    /* a directive is short: no allocation that a handler which does
-                       not return would leave behind */
-                    char sb[64];
-                    char *s = off < sizeof(sb) ? sb : (char *)malloc(off + 1);
-                    if (!s) {
-                        invoke_safe_str_constraint_handler(
-                            "vsnprintf_s: malloc failed", buffer, ENOMEM);
-                        return -(ENOMEM);
-                    }
-                    memcpy(s, startformat, off);
-                    s[off] = '\0';
+                    /* the helper looks at the last character of the directive only,
+                       the conversion: no copy of the directive, which may be of any
+                       length, and nothing on the heap while a handler may run */
+                    char s[2];
+                    s[0] = format[-1];
+                    s[1] = '\0';
                     idx = safec_ftoa_long(out, funcname, buffer, idx, bufsize,
                                           va_arg(va, long double), precision,
                                           width, flags, s);
-                    if (s != sb)
-                        free(s);
                 } else { // already at end
                     idx = safec_ftoa_long(out, funcname, buffer, idx, bufsize,
                                           va_arg(va, long double), precision,
@@ -1309,23 +1301,15 @@ int safec_vsnprintf_s(out_fct_type out, const char *funcname, char *buffer,
 #ifdef PRINTF_SUPPORT_LONG_DOUBLE
             if (flags & FLAGS_LONG_DOUBLE) {
                 if (*format) {
-                    unsigned off = format - startformat;
-                    /* a directive is short: no allocation that a handler which does
-                       not return would leave behind */
-                    char sb[64];
-                    char *s = off < sizeof(sb) ? sb : (char *)malloc(off + 1);
-                    if (!s) {
-                        invoke_safe_str_constraint_handler(
-                            "vsnprintf_s: malloc failed", buffer, ENOMEM);
-                        return -(ENOMEM);
-                    }
-                    memcpy(s, startformat, off);
-                    s[off] = '\0';
+                    /* the helper looks at the last character of the directive only,
+                       the conversion: no copy of the directive, which may be of any
+                       length, and nothing on the heap while a handler may run */
+                    char s[2];
+                    s[0] = format[-1];
+                    s[1] = '\0';
                     idx = safec_etoa_long(out, funcname, buffer, idx, bufsize,
                                           va_arg(va, long double), precision,
                                           width, flags, s);
-                    if (s != sb)
-                        free(s);
                 } else {
                     idx = safec_etoa_long(out, funcname, buffer, idx, bufsize,
                                           va_arg(va, long double), precision,
@@ -1346,23 +1330,15 @@ int safec_vsnprintf_s(out_fct_type out, const char *funcname, char *buffer,
 #ifdef PRINTF_SUPPORT_LONG_DOUBLE
             if (flags & FLAGS_LONG_DOUBLE) {
                 if (*format) {
-                    unsigned off = format - startformat;
-                    /* a directive is short: no allocation that a handler which does
-                       not return would leave behind */
-                    char sb[64];
-                    char *s = off < sizeof(sb) ? sb : (char *)malloc(off + 1);
-                    if (!s) {
-                        invoke_safe_str_constraint_handler(
-                            "vsnprintf_s: malloc failed", buffer, ENOMEM);
-                        return -(ENOMEM);
-                    }
-                    memcpy(s, startformat, off);
-                    s[off] = '\0';
+                    /* the helper looks at the last character of the directive only,
+                       the conversion: no copy of the directive, which may be of any
+                       length, and nothing on the heap while a handler may run */
+                    char s[2];
+                    s[0] = format[-1];
+                    s[1] = '\0';
                     idx = safec_atoa_long(out, funcname, buffer, idx, bufsize,
                                           va_arg(va, long double), precision,
                                           width, flags, s);
-                    if (s != sb)
-                        free(s);
                 } else {
                     idx = safec_atoa_long(out, funcname, buffer, idx, bufsize,
                                           va_arg(va, long double), precision,
@@ -1372,23 +1348,15 @@ int safec_vsnprintf_s(out_fct_type out, const char *funcname, char *buffer,
 #endif
             {
                 if (*format) {
-                    unsigned off = format - startformat;
-                    /* a directive is short: no allocation that a handler which does
-                       not return would leave behind */
-                    char sb[64];
-                    char *s = off < sizeof(sb) ? sb : (char *)malloc(off + 1);
-                    if (!s) {
-                        invoke_safe_str_constraint_handler(
-                            "vsnprintf_s: malloc failed", buffer, ENOMEM);
-                        return -(ENOMEM);
-                    }
-                    memcpy(s, startformat, off);
-                    s[off] = '\0';
+                    /* the helper looks at the last character of the directive only,
+                       the conversion: no copy of the directive, which may be of any
+                       length, and nothing on the heap while a handler may run */
+                    char s[2];
+                    s[0] = format[-1];
+                    s[1] = '\0';
                     idx = safec_atoa(out, funcname, buffer, idx, bufsize,
                                      va_arg(va, double), precision, width,
                                      flags, s);
-                    if (s != sb)
-                        free(s);
                 } else {
                     idx = safec_atoa(out, funcname, buffer, idx, bufsize,
                                      va_arg(va, double), precision, width,
